@@ -56,6 +56,18 @@ CHECKS.update({
    text="GribiFluent models every With*/Add* method as an update of a flat field map and the queueing calls as snapshots; TLC checks QueuedImmutable, IdsFromOne, StampedWhenElected on all programs of bounded length and emits programs; each program (TLC-emitted and seeded random over every method) runs on the real fluent API with a recording stub stream; EntryProto() of every queued builder and the complete sequence of ModifyRequests that reached the stream (generic protoreflect flattening, independent of fluent) are compared with the specification.",
    note="encap headers are exercised through two composite calls (MPLS labels, UDPv6 with all fields); values are drawn from small sets"),
 })
+CHECKS.update({
+ "C11": dict(ref="DESIGN.md 5/C11", engine="GribiServerCS",
+   text="GribiServerCS models the server's lock-protected critical sections (session table, parameter check/set, election store and compare-and-set, per-request snapshot); TLC explores every interleaving of the store/compare-and-set sections of three sessions and checks quiescent consistency and monotonicity; on the real code concurrent scenarios (2-4 Modify sessions on disjoint key ranges, Get readers, Flush callers) run in a binary built with -race: any race report is a violation, every request must be answered within a watchdog (blocked frames are recorded), and the sequence of critical-section events (sequence numbers taken in the hooks, inside the locks) is validated by TLC against GribiServerCS: atomic compare-and-set outcomes, untorn snapshots, quiescent election state, and - without overlapping Flush - installed next-hops equal to the fold of the acknowledged operations.",
+   note="data races are observed by Go's race detector on the schedules the runtime produced in this run; the specification contributes the atomicity/consistency oracle for the recorded interleavings (DESIGN 7)",
+   tech="explicit TLA+ spec at critical-section grain (TLC) + trace validation of concurrent runs; race detector as observer"),
+ "C13": dict(ref="DESIGN.md 5/C13", engine="GribiClient",
+   text="GribiClient models Q/StartSending/the receiver's handling of every response kind/AwaitConverged; TLC checks Conservation, NeverTwice and ConvergedMeansAnswered over all batches against all server behaviours (reordering across ids, batching, RIB before FIB, election/parameter responses, unknown ids, repeated terminal results, multi-field responses) and emits sequences; on the real client (scripted stub stream) pending operations, results with their operation type/key, error counts, what reached the stream and the AwaitConverged verdict are compared after every step; Status() snapshots taken concurrently with the receiver must account for every operation. One open known finding.",
+   note="the sender goroutine is eager (harness waits for its Send); ids unique in TLC-emitted sequences"),
+ "C14": dict(ref="DESIGN.md 5/C14", engine="GribiClient",
+   text="Same specification with the fault actions: a failed Send after n messages (which breaks the stream for the receiver too), a receive error, a clean end of stream, and a burst of Q calls while Send is stuck and then fails; after each the specification requires the recorded errors, the AwaitConverged verdict 'err', every Q call to return, Close/Reset to return with no client goroutine left (goroutine census) and a fresh client after Reset+Connect. A call that does not return within the watchdog is reported with the blocked frames.",
+   note="stub stream (no real transport); goroutines are counted by stack census of the client package"),
+})
 CHECKS["C08"]["text"] = CHECKS["C08"]["text"].replace("The election gate of the Flush RPC is decided by the server-level specification (see DESIGN).", "Server part (FlushGate): the complete decision table of network-instance and election fields against the learnt election id is part of GribiServer.FlushVerdict; every Flush RPC's status/reason and effect are compared on the real server.")
 CHECKS["C08"]["note"] = "trusted: TLC, hooks; bounded constants"
 CHECKS["C08"]["engine"] = "GribiRIB+GribiServer"
@@ -96,6 +108,8 @@ def main():
         "engines": [
             {"name": "GribiRIB", "path": "/verif/spec/GribiRIB.tla", "serves_properties": ["C01", "C02", "C03", "C08", "C12", "C16"],
              "kind_free_text": "TLA+ spec of rib/rib.go; GribiRIB_MC (bounded instance, input emission), GribiRIBTrace (trace validation); Go harness /verif/harness (vh rib-run)"},
+            {"name": "GribiServerCS", "path": "/verif/spec/GribiServerCS.tla", "serves_properties": ["C11"], "kind_free_text": "critical-section grain spec + GribiServerCS_MC + GribiServerCSTrace; vh conc-run built with -race"},
+            {"name": "GribiClient", "path": "/verif/spec/GribiClient.tla", "serves_properties": ["C13", "C14"], "kind_free_text": "client library spec + GribiClient_MC + GribiClientTrace; vh client-run with scripted stub stream"},
             {"name": "GribiReconcile", "path": "/verif/spec/GribiReconcile.tla", "serves_properties": ["C15"], "kind_free_text": "plan specification + GribiReconcile_MC + GribiReconcileTrace; vh recon-run"},
             {"name": "GribiChk", "path": "/verif/spec/GribiChk.tla", "serves_properties": ["C17"], "kind_free_text": "verdict specification + GribiChk_MC (case enumeration) + GribiChkTrace; vh chk-run"},
             {"name": "GribiFluent", "path": "/verif/spec/GribiFluent.tla", "serves_properties": ["C18"], "kind_free_text": "builder/queue specification + GribiFluent_MC (program generation) + GribiFluentTrace; vh fluent-run"},
